@@ -9,7 +9,7 @@ from props.c03 import gen_ctor
 
 PID = "C04"
 LEVEL = "proof"
-LEAN_TARGETS = ["SyneTune.Props.C04"]
+LEAN_TARGETS = ["SyneTune.Props.C04", "SyneTune.Props.C04K"]
 DRIVER = "SyneTune/Drivers/Hb.lean"
 THEOREMS = [
     "SyneTune.C04.pause_exactly_at_milestone",
@@ -24,6 +24,9 @@ THEOREMS = [
     "SyneTune.C04.cost_rule",
     "SyneTune.C04.rush_rule",
     "SyneTune.C04.rush_stopping_stricter",
+    "SyneTune.C04K.kinv_all_histories",
+    "SyneTune.C04K.resume_only_not_running",
+    "SyneTune.C04K.init_KInv",
 ]
 TRUSTED = [
     "hand-written model lean/SyneTune/Model/{Rung,HB}.lean tied to /repo by the hb correspondence stream",
